@@ -274,7 +274,7 @@ PROPS["C08"] = {
 PROPS["C01"] = {
     "level": "other",
     "level_text": "Bounded symbolic execution of one read event of the real I/O path (eventloop.read, conn.processIO, conn.Read/Next/Peek/Discard/WriteTo, inbound elastic ring buffer, real poller Trigger) from an arbitrary valid connection state over a ghost kernel with symbolic pending bytes, segmentation (short reads in LT), FIN and chunk limit; the handler's view is compared with the abstract stream inbound++pending at a free position; the representation invariant is re-proved, so a pass is inductive over event histories.",
-    "level_note": "One event per harness; <= 1 successful read(2) call per event in the generic LT/ET/RDHUP harnesses of the quick tier (2 in the thorough tier) with sizes <= 2^31, plus the drain-until-EOF harness with 3 data reads and sizes <= 4; the kernel is a stub with the contract stated in DESIGN.md (LT: any non-empty prefix; ET: exactly min(pending, len), new data raises a new edge). Configurations: LT / ET+chunk, default build (poll_opt and gc_opt differ only in dispatch/registry and are covered by C14 / thorough). Trusted: go/ssa lowering, SSA->SMT translation, z3, ghost kernel contract.",
+    "level_note": "One event per harness; <= 1 successful read(2) call per event in the generic LT/ET/RDHUP harnesses of the quick tier (2 in the thorough tier) with sizes <= 2^31, plus the drain-until-EOF harness with 3 data reads and sizes <= 4; the level-triggered harness starts from an arbitrary inbound ring, the edge-triggered ones from an empty one (the arbitrary-ring ET configuration with 2 reads did not finish in 100 min and is not registered); the kernel is a stub with the contract stated in DESIGN.md (LT: any non-empty prefix; ET: exactly min(pending, len), new data raises a new edge). Configurations: LT / ET+chunk, default build (poll_opt and gc_opt differ only in dispatch/registry and are covered by C14 / thorough). Trusted: go/ssa lowering, SSA->SMT translation, z3, ghost kernel contract.",
     "design_ref": "DESIGN.md section 5 (loop-step family, C01)",
     "explanation": "Real framework code from go/ssa, system calls redirected to the ghost kernel (internal/vk) in scratch copies of the calling files.",
     "bounds": {"reads_per_event": "1 quick / 2 thorough; 3 in VH_C01_RdHupDrain3 (sizes <= 4)", "sizes": "<= 2^31", "handler": "one of none/Read/Next/Peek+Discard/WriteTo per event with symbolic sizes"},
